@@ -97,6 +97,13 @@ class _CompiledProxy:
     def __call__(self, **kwargs):
         rec = self._record
         rec.n_calls += 1
+        # exact backend: object-dtype (Fraction) arrays are executed by the IR interpreter, so that the
+        # repo's own Python wrappers can be run in exact rational arithmetic
+        for v in kwargs.values():
+            if getattr(v, "dtype", None) == object:
+                from . import interp
+
+                return interp.run_exact(rec, kwargs)
         if MONITORS:
             for m in list(MONITORS):
                 m("pre", rec, kwargs)
